@@ -3,6 +3,7 @@ package main
 import (
 	"fmt"
 	"go/types"
+	"math/big"
 	"strings"
 
 	"golang.org/x/tools/go/ssa"
@@ -124,6 +125,9 @@ func (st *State) dispatchCall(fr *Frame, in ssa.CallInstruction, c *ssa.CallComm
 	// bound method wrappers ($bound) and thunks: unwrap
 	if callee.Synthetic != "" && strings.HasSuffix(callee.Name(), "$bound") && callee.Blocks != nil {
 		st.inline(fr, in, callee, bindings, args, k)
+		return
+	}
+	if st.entCall(fr, in, callee, args, k) {
 		return
 	}
 	if intr, ok := intrinsics[name]; ok {
@@ -343,9 +347,11 @@ func (st *State) applyContract(fr *Frame, in ssa.CallInstruction, ct *Contract, 
 	if len(resVals) == 1 {
 		env.vars["result"] = envVar{resVals[0], results.At(0).Type()}
 	}
+	env.assume = true
 	for _, c := range ct.Ensures {
 		st.assume(st.elabBool(env, c.E))
 	}
+	env.assume = false
 	for _, g := range ct.GhostSet {
 		v, _ := st.elab(env, g.E)
 		st.ghostSet(g.Label, nil, st.scalar(v))
@@ -444,6 +450,22 @@ func (st *State) appendBuiltin(fr *Frame, c *ssa.CallCommon, args []SVal) SVal {
 		ncap := st.fresh("cap", SInt)
 		st.assume(Ge(ncap, nl))
 		res := &SliceV{Base: nb, Off: IntLit(0), Len: nl, Cap: ncap, Elem: s.Elem}
+		if l1, ok := s.Len.Lit.(*big.Int); ok {
+			if l2, ok := add.Len.Lit.(*big.Int); ok && l1.Int64()+l2.Int64() <= 16 {
+				// statically known lengths: copy element by element (keeps engine-side values such as predicates)
+				k := int64(0)
+				cp := func(src *SliceV, n int64) {
+					for i := int64(0); i < n; i++ {
+						v := st.load(st.heap, &AddrV{Kind: "elem", Base: src.Base, Idx: Add(src.Off, IntLit(i)), Key: "E|" + typeKey(s.Elem), Type: s.Elem})
+						st.store(&AddrV{Kind: "elem", Base: nb, Idx: IntLit(k), Key: "E|" + typeKey(s.Elem), Type: s.Elem}, v)
+						k++
+					}
+				}
+				cp(s, l1.Int64())
+				cp(add, l2.Int64())
+				return res
+			}
+		}
 		ls := st.e.leaves(s.Elem)
 		for _, l := range ls {
 			key := "E|" + typeKey(s.Elem) + "|" + l.Path
